@@ -25,6 +25,10 @@ func verify(c *Ctx, fn *ssa.Function, fc *FuncContract, commutes bool) {
 		for _, f := range c.typeInv(v.T, p.Type(), 0) {
 			c.defs = append(c.defs, "(assert "+f+")")
 		}
+		if pt, ok := p.Type().Underlying().(*types.Pointer); ok && isBuilder(pt.Elem()) {
+			// a *strings.Builder parameter: the text it holds is element 0 of a one-element array at the pointer ("*sb")
+			fr.addrs[p] = Addr{Elem: true, Root: pt.Elem(), Ref: v.T, Idx: "0", Sl: fmt.Sprintf("(mk-slice %s 0 1)", v.T), RelIx: "0"}
+		}
 		switch p.Type().Underlying().(type) {
 		case *types.Pointer:
 			if fc.Auto {
